@@ -170,3 +170,7 @@ impl Assembler {
         }
     }
 }
+
+#[cfg(kani)]
+#[path = "/verif/harness/transport_assembler.rs"]
+pub(crate) mod verif_harness;
